@@ -1306,4 +1306,27 @@ theorem C16_cex_replicas_before_ring :
     let s := [TokenMeta.PolOp.add h1, .add h2, .setPartitioner, .remove h1].foldl (TokenMeta.pstepWith true env te) {}
     s.p.ta = [h2] ∧ s.tm.strayRefs [h2] = [1] := by decide
 
+/-! ### schema events (Session.handleSchemaEvent) -/
+
+open TokenMeta in
+/-- `C16_schema_events_invalidate`. For EVERY history of schema-cache fills and batches of SCHEMA_CHANGE events
+(keyspace / table / type / function / aggregate, any keyspaces, any batch sizes) handled by `handleSchemaEvent`:
+(1) a keyspace's metadata is in the session's schema cache at the end iff the LATEST thing that happened to the
+keyspace is a fill — no event of any kind leaves stale metadata cached; (2) the token-aware policy's metadata, which
+the keyspace-level events update through KeyspaceChanged, still follows the policy's host list. -/
+theorem C16_schema_events_invalidate (env : Env) (te : TEnv) (p : Policy) (hist : List SchemaOp) (ks : Nat) :
+    (hist.foldl (schemaOp env te p) {}).cache.contains ks = cachedSpecRev ks hist.reverse ∧
+    ∀ (s : SchemaSt) (b : List SchemaEv), C16TokenMeta.TInv te s.tm p.ta →
+      C16TokenMeta.TInv te (handleSchemaEvent env te p s b).tm p.ta := by
+  refine ⟨?_, fun s b h => C16TokenMeta.tinv_schema env te p b s h⟩
+  have := C16TokenMeta.schema_cache_spec env te p ks hist.reverse
+  rwa [List.reverse_reverse] at this
+
+/-- non-vacuity: ks 1 and 2 cached; a table event for 1 and a keyspace event for 3; 2 is filled again — 1 is gone, 2 stays -/
+example :
+    let env : Env := ⟨fun _ => false, fun _ => true, true, false, false⟩
+    let te : TokenMeta.TEnv := ⟨1, fun k => k == 1 || k == 2, fun _ => true⟩
+    (([TokenMeta.SchemaOp.fill 1, .fill 2, .events [.other 1, .keyspace 3], .fill 2].foldl (TokenMeta.schemaOp env te {}) {}).cache) = [2] := by
+  decide
+
 end C16
